@@ -34,7 +34,7 @@ META = {
         "technique": "Lean 4 proof (conservation law by induction on kick fuel, invariant over histories, ∀ oracle) + correspondence with recorded oracle",
     },
     "C07": {
-        "text": "Over ℝ, on the same generic definitions the Float instance executes: 2/width ≤ ε; 1−2^(−depth) ≥ confidence with NO numeric hypothesis (the code's literal 0.6931471805599453 ≤ ln 2 is proved from a series); 2b/2^f ≤ ε for the cuckoo fingerprint size; Bloom: m = ⌈−n ln t / c₁⌉ facts, |k − c₂m/n| ≤ ½, exp(−c₁m/n) ≤ t, exact characterisation of when _get_optimized_params succeeds and which error it raises; the 7% clause itself — (1−e^{−kn/m})^k ≤ 1.07·t for the rounded k — is proved analytically for all n, m, k (C07_allowance, C07_bloom_full); reload stability for any idempotent narrowing (C07_stable, also for Float). Tie: sizing suite compares the Float instance with the code bit-for-bit (incl. float32 narrowing, round-half-even, error kinds).",
+        "text": "Over ℝ, on the same generic definitions the Float instance executes: 2/width ≤ ε; 1−2^(−depth) ≥ confidence with NO numeric hypothesis (the code's literal 0.6931471805599453 ≤ ln 2 is proved from a series); 2b/2^f ≤ ε for the cuckoo fingerprint size; Bloom: m = ⌈−n ln t / c₁⌉ facts, |k − c₂m/n| ≤ ½, exp(−c₁m/n) ≤ t, exact characterisation of when _get_optimized_params succeeds and which error it raises; the 7% clause itself — (1−e^{−kn/m})^k ≤ 1.07·t for the rounded k — is proved analytically for all n, m, k (C07_allowance, C07_bloom_full); reload stability for any idempotent narrowing (C07_stable, also for Float). The search adds a directed scan over est_elements for a geometry whose bit/hash counts depart from the documented rule. Tie: sizing suite compares the Float instance with the code bit-for-bit (incl. float32 narrowing, round-half-even, error kinds).",
         "design_ref": "§4 C07, §7",
         "note": TIE + " IEEE-754 rounding between ℝ and Float is not verified (that is the only part of C07 outside Lean).",
         "technique": "Lean 4 + Mathlib proof over ℝ (single modules) + bit-for-bit Float correspondence",
@@ -106,7 +106,7 @@ META = {
         "technique": "Lean 4 proof (codec round-trip lemmas, per-format decode∘encode = id) + correspondence over all channels",
     },
     "C06": {
-        "text": "The model's export equals an independently written layout specification (Spec/Layout.lean: documented cell arrays and footers, little-endian codecs written out again, documented FNV-1a hashing rule with the published constants) as a total characterisation for Bloom, hex, counting Bloom, count-min (row-major), expanding/rotating, cuckoo and counting cuckoo (C06_*_file); bit/cell addressing theorems; reference READERS working on the file bytes agree with the library for Bloom, counting Bloom, count-min min/mean/mean-min (C06_reader_*); reference WRITERS reproduce the library's file from the key list for Bloom, counting Bloom, count-min, expanding and rotating (C06_writer_*). The constants/layouts of the model are regenerated from the source on every run, the spec pins the documented ones. Tie: payload of every export channel + cells after every add; search: independent Python reference reader/writer.",
+        "text": "The model's export equals an independently written layout specification (Spec/Layout.lean: documented cell arrays and footers, little-endian codecs written out again, documented FNV-1a hashing rule with the published constants) as a total characterisation for Bloom, hex, counting Bloom, count-min (row-major), expanding/rotating, cuckoo and counting cuckoo (C06_*_file); bit/cell addressing theorems; reference READERS working on the file bytes agree with the library for Bloom, counting Bloom, count-min min/mean/mean-min (C06_reader_*); reference WRITERS reproduce the library's file from the key list for Bloom, counting Bloom, count-min, expanding and rotating (C06_writer_*). The constants/layouts of the model are regenerated from the source on every run, the spec pins the documented ones — including the two sizing doubles a C reader re-derives the geometry with (C06_sizing_constants_documented: the extracted constants, constant expressions evaluated, ARE 0.4804530139182 and 0.6931471805599453 bit for bit); the search scans est_elements for a geometry departing from the documented rule. Tie: payload of every export channel + cells after every add; search: independent Python reference reader/writer.",
         "design_ref": "§4 C06",
         "note": TIE + " No reference writer for the cuckoo formats (the file is pinned as a function of the table; which table results is C03/C15). A compiled C reader is not part of the registered checks.",
         "technique": "Lean 4 proof (model encode = independent layout spec; reference reader/writer equivalence) + translator-regenerated layouts + correspondence",
